@@ -480,4 +480,317 @@ theorem inv_removeOne (d : Nat) (st : State) (h : Inv st) : Inv (removeOne true 
       simp [this, hxd]
   · exact h
 
+/-- facts about `zip(data, group.subsets)` in `SubsetGroup.register`. -/
+theorem zip_new_mem (n g : Nat) (D : List Nat) (hnd : D.Nodup) (d : Nat) (hd : d ∈ D) :
+    ∃ s, ((D.zip (mkSubsD n g D)).filter (fun p => p.1 == d)).map (·.2) = [s] ∧
+      s.data = some d ∧ s.group = g ∧ s ∈ mkSubsD n g D := by
+  have hfst : (D.zip (mkSubsD n g D)).map (·.1) = D :=
+    List.map_fst_zip (by rw [mkSubsD_length]; exact Nat.le_refl _)
+  have hd' : d ∈ (D.zip (mkSubsD n g D)).map (·.1) := by rw [hfst]; exact hd
+  obtain ⟨p, hp, rfl⟩ := List.mem_map.1 hd'
+  refine ⟨p.2, ?_, mkSubsD_zip n g D p hp, mkSubsD_group n g D _ (List.of_mem_zip hp).2, (List.of_mem_zip hp).2⟩
+  rw [filter_eq_singleton (·.1) _ _ hfst hnd p hp]
+  rfl
+
+theorem zip_new_not_mem (n g : Nat) (D : List Nat) (d : Nat) (hd : d ∉ D) :
+    ((D.zip (mkSubsD n g D)).filter (fun p => p.1 == d)).map (·.2) = [] := by
+  have : (D.zip (mkSubsD n g D)).filter (fun p => p.1 == d) = [] := by
+    rw [List.filter_eq_nil_iff]
+    intro p hp hpd
+    simp only [beq_iff_eq] at hpd
+    exact hd (hpd ▸ (List.of_mem_zip hp).1)
+  rw [this]; rfl
+
+theorem zip_new_of_mem (n g : Nat) (D : List Nat) (s : Sub) (hs : s ∈ mkSubsD n g D) :
+    ∃ d ∈ D, s.data = some d ∧ s ∈ ((D.zip (mkSubsD n g D)).filter (fun p => p.1 == d)).map (·.2) := by
+  have hsnd : (D.zip (mkSubsD n g D)).map (·.2) = mkSubsD n g D :=
+    List.map_snd_zip (by rw [mkSubsD_length]; exact Nat.le_refl _)
+  rw [← hsnd] at hs
+  obtain ⟨p, hp, rfl⟩ := List.mem_map.1 hs
+  exact ⟨p.1, (List.of_mem_zip hp).1, mkSubsD_zip n g D p hp,
+    List.mem_map.2 ⟨p, List.mem_filter.2 ⟨hp, by simp⟩, rfl⟩⟩
+
+theorem inv_newGroup (st : State) (h : Inv st) : Inv (newGroup st) := by
+  rw [newGroup_eq]
+  have hg : st.nGroup ∉ st.groups := fun e => Nat.lt_irrefl _ (h.gBound _ e)
+  refine
+    { nodupD := h.nodupD, nodupG := ?_, subsEq := ?_, dBound := h.dBound, gBound := ?_,
+      dataGroups := ?_, subData := ?_, removedEmpty := ?_, groupDatas := ?_, subGroup := ?_,
+      groupAttached := ?_, attachedListed := ?_ }
+  · show (st.groups ++ [st.nGroup]).Nodup
+    rw [List.nodup_append]
+    refine ⟨h.nodupG, by simp, ?_⟩
+    intro a ha b hb e
+    rw [List.mem_singleton] at hb
+    exact hg (hb ▸ e ▸ ha)
+  · show st.subs ++ [st.nGroup] = st.groups ++ [st.nGroup]
+    rw [h.subsEq]
+  · intro x hx
+    show x < st.nGroup + 1
+    rcases List.mem_append.1 hx with hx | hx
+    · exact Nat.lt_succ_of_lt (h.gBound x hx)
+    · rw [List.mem_singleton] at hx; subst hx; exact Nat.lt_succ_self _
+  · intro d hd
+    show (st.dsubs d ++ ((st.datasets.zip (mkSubsD st.nSub st.nGroup st.datasets)).filter
+        (fun p => p.1 == d)).map (·.2)).map (·.group) = st.groups ++ [st.nGroup]
+    obtain ⟨s, hs, _, hsg, _⟩ := zip_new_mem st.nSub st.nGroup st.datasets h.nodupD d hd
+    rw [hs, List.map_append, h.dataGroups d hd]
+    simp [hsg]
+  · intro x s hs
+    change s ∈ st.dsubs x ++ ((st.datasets.zip (mkSubsD st.nSub st.nGroup st.datasets)).filter
+        (fun p => p.1 == x)).map (·.2) at hs
+    rcases List.mem_append.1 hs with hs | hs
+    · exact h.subData x s hs
+    · obtain ⟨p, hp, rfl⟩ := List.mem_map.1 hs
+      have ⟨hp1, hp2⟩ := List.mem_filter.1 hp
+      simp only [beq_iff_eq] at hp2
+      rw [← hp2]
+      exact mkSubsD_zip _ _ _ p hp1
+  · intro x hx
+    show st.dsubs x ++ ((st.datasets.zip (mkSubsD st.nSub st.nGroup st.datasets)).filter
+        (fun p => p.1 == x)).map (·.2) = []
+    rw [h.removedEmpty x hx, zip_new_not_mem _ _ _ _ hx]; rfl
+  · intro g hg'
+    show ((upd st.gsubs st.nGroup (mkSubsD st.nSub st.nGroup st.datasets)) g).map (·.data) = st.datasets.map some
+    rcases List.mem_append.1 hg' with hg' | hg'
+    · have : g ≠ st.nGroup := fun e => hg (e ▸ hg')
+      rw [upd_other _ _ _ _ this]; exact h.groupDatas g hg'
+    · rw [List.mem_singleton] at hg'; subst hg'
+      rw [upd_same, mkSubsD_map_data]
+  · intro g s hs
+    change s ∈ (upd st.gsubs st.nGroup (mkSubsD st.nSub st.nGroup st.datasets)) g at hs
+    by_cases hgg : g = st.nGroup
+    · subst hgg; rw [upd_same] at hs; exact mkSubsD_group _ _ _ s hs
+    · rw [upd_other _ _ _ _ hgg] at hs; exact h.subGroup g s hs
+  · intro g hg' s hs x hsx
+    change s ∈ (upd st.gsubs st.nGroup (mkSubsD st.nSub st.nGroup st.datasets)) g at hs
+    show s ∈ st.dsubs x ++ ((st.datasets.zip (mkSubsD st.nSub st.nGroup st.datasets)).filter
+        (fun p => p.1 == x)).map (·.2)
+    rcases List.mem_append.1 hg' with hg' | hg'
+    · have : g ≠ st.nGroup := fun e => hg (e ▸ hg')
+      rw [upd_other _ _ _ _ this] at hs
+      exact List.mem_append_left _ (h.groupAttached g hg' s hs x hsx)
+    · rw [List.mem_singleton] at hg'; subst hg'
+      rw [upd_same] at hs
+      obtain ⟨d, _, hd2, hd3⟩ := zip_new_of_mem _ _ _ s hs
+      rw [hd2] at hsx
+      have : d = x := Option.some.inj hsx
+      subst this
+      exact List.mem_append_right _ hd3
+  · intro x hx s hs
+    change s ∈ st.dsubs x ++ ((st.datasets.zip (mkSubsD st.nSub st.nGroup st.datasets)).filter
+        (fun p => p.1 == x)).map (·.2) at hs
+    show s ∈ (upd st.gsubs st.nGroup (mkSubsD st.nSub st.nGroup st.datasets)) s.group
+    rcases List.mem_append.1 hs with hs | hs
+    · have h1 := mem_groups_of_attached h hx hs
+      have : s.group ≠ st.nGroup := fun e => hg (e ▸ h1)
+      rw [upd_other _ _ _ _ this]; exact h.attachedListed x hx s hs
+    · obtain ⟨s', hs', _, hsg, hmem⟩ := zip_new_mem st.nSub st.nGroup st.datasets h.nodupD x hx
+      rw [hs', List.mem_singleton] at hs
+      subst hs
+      rw [hsg, upd_same]; exact hmem
+
+/-- what `remove_subset_group(g)` leaves on a dataset of the collection: everything but `g`'s subset. -/
+theorem removeGroup_dsubs {st : State} (h : Inv st) (g d : Nat) (hd : d ∈ st.datasets) :
+    ((st.gsubs g).filter (fun s => s.data == some d)).foldl List.erase (st.dsubs d) =
+      (st.dsubs d).filter (fun s => !(s.group == g)) := by
+  rw [foldl_erase_eq_filter _ _ (nodup_dsubs h hd)]
+  apply List.filter_congr
+  intro s hs
+  by_cases hsg : s.group = g
+  · have h1 : s ∈ st.gsubs g := hsg ▸ h.attachedListed d hd s hs
+    have h2 := h.subData d s hs
+    have : s ∈ (st.gsubs g).filter (fun s => s.data == some d) := List.mem_filter.2 ⟨h1, by simp [h2]⟩
+    simp [this, hsg]
+  · have : s ∉ (st.gsubs g).filter (fun s => s.data == some d) := by
+      intro hm
+      exact hsg (h.subGroup g s (List.mem_filter.1 hm).1)
+    simp [this, hsg]
+
+theorem inv_removeGroup (g : Nat) (st : State) (h : Inv st) : Inv (removeGroup g st) := by
+  unfold removeGroup
+  split
+  · rename_i hg
+    simp only [foldl_deleteSub]
+    have hmem : ∀ x, x ∈ st.groups.erase g ↔ x ≠ g ∧ x ∈ st.groups := fun x => h.nodupG.mem_erase_iff
+    have hsub : ∀ x s, s ∈ ((st.gsubs g).filter (fun s => s.data == some x)).foldl List.erase (st.dsubs x) →
+        s ∈ st.dsubs x := by
+      intro x s hs
+      by_cases hx : x ∈ st.datasets
+      · rw [removeGroup_dsubs h g x hx] at hs; exact (List.mem_filter.1 hs).1
+      · rw [h.removedEmpty x hx, foldl_erase_nil] at hs; cases hs
+    refine
+      { nodupD := h.nodupD, nodupG := h.nodupG.erase g, subsEq := ?_, dBound := h.dBound, gBound := ?_,
+        dataGroups := ?_, subData := ?_, removedEmpty := ?_, groupDatas := ?_, subGroup := h.subGroup,
+        groupAttached := ?_, attachedListed := ?_ }
+    · show st.subs.erase g = st.groups.erase g
+      rw [h.subsEq]
+    · intro x hx; exact h.gBound x ((hmem x).1 hx).2
+    · intro d hd
+      show (((st.gsubs g).filter (fun s => s.data == some d)).foldl List.erase (st.dsubs d)).map (·.group)
+          = st.groups.erase g
+      rw [removeGroup_dsubs h g d hd, h.nodupG.erase_eq_filter, ← h.dataGroups d hd, List.filter_map]
+      rfl
+    · intro x s hs; exact h.subData x s (hsub x s hs)
+    · intro x hx
+      show ((st.gsubs g).filter (fun s => s.data == some x)).foldl List.erase (st.dsubs x) = []
+      rw [h.removedEmpty x hx, foldl_erase_nil]
+    · intro g' hg'; exact h.groupDatas g' ((hmem g').1 hg').2
+    · intro g' hg' s hs x hsx
+      have ⟨hne, hgG⟩ := (hmem g').1 hg'
+      have h1 := h.groupAttached g' hgG s hs x hsx
+      have hx := mem_datasets_of_attached h h1
+      show s ∈ ((st.gsubs g).filter (fun s => s.data == some x)).foldl List.erase (st.dsubs x)
+      rw [removeGroup_dsubs h g x hx]
+      refine List.mem_filter.2 ⟨h1, ?_⟩
+      have := h.subGroup g' s hs
+      simp [this, hne]
+    · intro x hx s hs; exact h.attachedListed x hx s (hsub x s hs)
+  · exact h
+
+theorem find?_unique {α : Type} (p : α → Bool) (a : α) : ∀ l : List α, a ∈ l → p a = true →
+    (∀ x ∈ l, p x = true → x = a) → l.find? p = some a := by
+  intro l
+  induction l with
+  | nil => intro h; cases h
+  | cons b t ih =>
+    intro hm hp hu
+    by_cases hb : p b = true
+    · have := hu b (List.mem_cons_self ..) hb
+      subst this
+      simp [List.find?_cons, hb]
+    · have hb' : p b = false := by simpa using hb
+      rcases List.mem_cons.1 hm with rfl | hm'
+      · exact absurd hp hb
+      · simp only [List.find?_cons, hb']
+        exact ih hm' hp (fun x hx => hu x (List.mem_cons_of_mem _ hx))
+
+theorem map_eq_self {α : Type} (f : α → α) (l : List α) (h : ∀ a ∈ l, f a = a) : l.map f = l := by
+  induction l with
+  | nil => rfl
+  | cons a t ih =>
+    simp only [List.map_cons]
+    rw [h a (List.mem_cons_self ..), ih (fun b hb => h b (List.mem_cons_of_mem _ hb))]
+
+/-- on a state that satisfies `Inv`, a save / restore round trip changes nothing. -/
+theorem restore_eq (st : State) (h : Inv st) : restore st = st := by
+  unfold restore
+  apply State.ext <;> try rfl
+  · exact h.subsEq.symm
+  · funext d
+    by_cases hd : d ∈ st.datasets
+    · simp only [hd, if_true]
+      apply map_eq_self
+      intro s hs
+      have := h.subData d s hs
+      cases s; simp_all
+    · simp only [hd, if_false]; exact (h.removedEmpty d hd).symm
+  · funext g
+    by_cases hg : g ∈ st.groups
+    · simp only [hg, if_true]
+      apply map_eq_self
+      intro s hs
+      have h1 : s.data ∈ (st.gsubs g).map (·.data) := List.mem_map.2 ⟨s, hs, rfl⟩
+      rw [h.groupDatas g hg] at h1
+      obtain ⟨d, hd, hsd⟩ := List.mem_map.1 h1
+      have h2 := h.groupAttached g hg s hs d hsd.symm
+      have : st.datasets.find? (fun d => (st.dsubs d).contains s) = some d := by
+        apply find?_unique _ _ _ hd (by simpa using h2)
+        intro x _ hx
+        have hx' : s ∈ st.dsubs x := by simpa using hx
+        have := h.subData x s hx'
+        rw [← hsd] at this
+        exact (Option.some.inj this).symm
+      rw [this]
+      cases s; simp_all
+    · simp only [hg, if_false]
+
+theorem inv_restore (st : State) (h : Inv st) : Inv (restore st) := by
+  rw [restore_eq st h]; exact h
+
+theorem inv_setVal (g : Nat) (f : GVals → GVals) (st : State) (h : Inv st) : Inv (setVal g f st) := by
+  unfold setVal
+  split
+  · exact ⟨h.nodupD, h.nodupG, h.subsEq, h.dBound, h.gBound, h.dataGroups, h.subData, h.removedEmpty,
+      h.groupDatas, h.subGroup, h.groupAttached, h.attachedListed⟩
+  · exact h
+
+/-! ## 4. composite operations -/
+
+theorem inv_extend (ds : List Nat) : ∀ st : State, Inv st → Inv (extend ds st) := by
+  unfold extend
+  induction ds with
+  | nil => intro st h; exact h
+  | cons d ds ih => intro st h; exact ih _ (inv_appendOne d st h)
+
+theorem inv_foldl_remove (ds : List Nat) : ∀ st : State, Inv st →
+    Inv (ds.foldl (fun st d => removeOne true d st) st) := by
+  induction ds with
+  | nil => intro st h; exact h
+  | cons d ds ih => intro st h; exact ih _ (inv_removeOne d st h)
+
+theorem inv_clear (st : State) (h : Inv st) : Inv (clear true st) := inv_foldl_remove _ st h
+
+theorem inv_merge (ds : List Nat) (st : State) (h : Inv st) : Inv (merge true ds st) := by
+  unfold merge
+  split
+  · split
+    · apply inv_foldl_remove
+      apply inv_appendOne
+      have hm : st.nData ∉ st.datasets := fun e => Nat.lt_irrefl _ (h.dBound _ e)
+      have he : upd st.dsubs st.nData [] = st.dsubs := by
+        rw [← h.removedEmpty _ hm]; exact upd_self _ _
+      simp only [he]
+      exact ⟨h.nodupD, h.nodupG, h.subsEq, fun d hd => Nat.lt_succ_of_lt (h.dBound d hd), h.gBound,
+        h.dataGroups, h.subData, h.removedEmpty, h.groupDatas, h.subGroup, h.groupAttached, h.attachedListed⟩
+    · exact h
+  · exact h
+
+theorem inv_foldl_setItem (key : Nat) (ds : List Nat) : ∀ st : State, Inv st →
+    Inv (ds.foldl (fun st e => if st.dlabel e = key then removeOne true e st else st) st) := by
+  induction ds with
+  | nil => intro st h; exact h
+  | cons d ds ih =>
+    intro st h
+    simp only [List.foldl_cons]
+    apply ih
+    split
+    · exact inv_removeOne d st h
+    · exact h
+
+theorem inv_setItem (key d : Nat) (st : State) (h : Inv st) : Inv (setItem true key d st) := by
+  unfold setItem
+  split
+  · exact h
+  · apply inv_appendOne
+    apply inv_foldl_setItem
+    exact ⟨h.nodupD, h.nodupG, h.subsEq, h.dBound, h.gBound, h.dataGroups, h.subData, h.removedEmpty,
+      h.groupDatas, h.subGroup, h.groupAttached, h.attachedListed⟩
+
+theorem inv_init (n colors : Nat) : Inv (init n colors) := by
+  refine ⟨List.nodup_nil, List.nodup_nil, rfl, ?_, ?_, ?_, ?_, ?_, ?_, ?_, ?_, ?_⟩ <;>
+    intros <;> first | rfl | (rename_i h; cases h) | skip
+  all_goals simp_all [init]
+
+theorem inv_step (st : State) (op : Op) (h : Inv st) : Inv (step true st op) := by
+  cases op with
+  | append d => exact inv_appendOne d st h
+  | extend ds => exact inv_extend ds st h
+  | remove d => exact inv_removeOne d st h
+  | clear => exact inv_clear st h
+  | newGroup => exact inv_newGroup st h
+  | removeGroup g => exact inv_removeGroup g st h
+  | setState g v => exact inv_setVal g (fun x => { x with state := .user v }) st h
+  | setLabel g v => exact inv_setVal g (fun x => { x with label := .user v }) st h
+  | setStyle g v => exact inv_setVal g (fun x => { x with style := .user v }) st h
+  | merge ds => exact inv_merge ds st h
+  | setItem key d => exact inv_setItem key d st h
+  | restore => exact inv_restore st h
+
+theorem inv_run (ops : List Op) : ∀ st : State, Inv st → Inv (run true st ops) := by
+  unfold run
+  induction ops with
+  | nil => intro st h; exact h
+  | cons op ops ih => intro st h; exact ih _ (inv_step st op h)
+
 end GlueVerif.Lemmas.C06
